@@ -32,6 +32,19 @@ def step (line : String) : String :=
       match transformationLut.find? (fun e => e.1 == f && e.2.1 == t) with
       | some e => e.2.2
       | none => "err:NotImplementedError"
+  -- C17 ---------------------------------------------------------------
+  | ["shiftperm", "fft", n] => " ".intercalate ((fftshift (List.range (pN n))).map toString)
+  | ["shiftperm", "ifft", n] => " ".intercalate ((ifftshift (List.range (pN n))).map toString)
+  | ["ftcoord", sp, n] => sFs ((List.range (pN n)).map (ftCoordAt (pF sp) (pN n)))
+  | ["iftcoord", sp, n] => sFs ((List.range (pN n)).map (iftCoordAt (pF sp) (pN n)))
+  | "tf" :: lam :: d :: cfsp :: gf :: mn =>
+      let gfo : Option Float := if gf == "none" then none else some (pF gf)
+      let rec go : List String → List Float
+        | m :: n :: rest =>
+          let z := transFunc (pF lam) (pF d) (pN cfsp) gfo (pF m) (pF n)
+          z.re :: z.im :: go rest
+        | _ => []
+      sFs (go mn)
   | ["genfailures"] => toString translationFailures
   | _ => "bad-op"
 
